@@ -185,12 +185,7 @@ func f(totalVotingPower types.VotingPower) types.VotingPower {
 }
 
 func q(totalVotingPower types.VotingPower) types.VotingPower {
-	// Unfortunately there is no ceiling function for integers in go.
-	d := totalVotingPower * 2
-	q := d / 3
-	r := d % 3
-	if r > 0 {
-		q++
-	}
-	return q
+	// ceil(2N/3) == N - floor(N/3). Computed this way the intermediate value never exceeds N,
+	// so it cannot wrap around for large voting powers (N*2 does for N >= 2^63).
+	return totalVotingPower - totalVotingPower/3
 }
